@@ -86,7 +86,7 @@ def reply_exploration(ck, tier, rng):
     ok = 0; distinct = set()
     for d, din, (b, acts), (r, err), m in zip(docs, dins, jobs, res, mo):
         ck.count()
-        case = {'doc': {k: d[k] for k in ('stories', 'comments', 'next_uid', 'rpr_table')}, 'actions': acts}
+        case = {'doc': A.doc_core(d), 'actions': acts}
         if err: ck.violation('oracle', case, 'review session raised ' + err); continue
         ap, sk, ob = r
         dout = docrun.canon_session(A.read(ob, table=din['rpr_table']), din)
